@@ -58,8 +58,19 @@ impl Inverse {
         let (m, e) = decompose(rate);
         let s = (-e) as u32;
         assert!(s <= 86, "Inverse::of is for rates >= 2^-63");
-        let p = 1u128 << s;
-        Inverse { m, s, q: p / m as u128, rem: (p % m as u128) as u32 }
+        // 2^s / m by two 64-bit steps (m < 2^24): 2^s = 2^(s-40) * 2^40, and r1 * 2^40 < 2^64
+        let m64 = m as u64;
+        if s <= 63 {
+            let p = 1u64 << s;
+            Inverse { m, s, q: (p / m64) as u128, rem: (p % m64) as u32 }
+        } else {
+            let hi = 1u64 << (s - 40);
+            let (q1, r1) = (hi / m64, hi % m64);
+            let lo = r1 << 40;
+            let inv = Inverse { m, s, q: ((q1 as u128) << 40) + (lo / m64) as u128, rem: (lo % m64) as u32 };
+            debug_assert!(inv.q * m as u128 + inv.rem as u128 == 1u128 << s);
+            inv
+        }
     }
     pub fn floor(&self) -> u128 {
         self.q
@@ -122,10 +133,10 @@ pub struct ASt {
     pub two_weights_possible: u64,
     pub threshold_draws: u64,
     pub expectation_exact: u64,
-    pub max_rel_small: f64,
-    pub arg_small: u32,
-    pub max_rel_large: f64,
-    pub arg_large: u32,
+    /// per s (1/rate = 2^s/m): largest |num| and where, for 1/rate < 2^53 and >= 2^53; the relative
+    /// deviation is |num| / 2^(53+s)
+    pub max_num_small: Vec<(u128, u32)>,
+    pub max_num_large: Vec<(u128, u32)>,
     pub n_changes: u64,
     pub n_not_monotone: u64,
     last: Option<(u64, u64)>, // (index, n)
@@ -148,6 +159,17 @@ impl ASt {
                 self.viol.insert(key.to_string(), KeyBest { count: 1, best_bits: bits, what: what(), replay: replay() });
             }
         }
+    }
+    /// (largest relative deviation rounded to f64 for display, rate bits) out of per-exponent maxima
+    pub fn max_rel(tabs: &[&Vec<(u128, u32)>]) -> (f64, u32) {
+        let mut best = (0.0, 1);
+        for tab in tabs {
+            for (s, &(a, bits)) in tab.iter().enumerate() {
+                let rel = a as f64 / 2f64.powi(53 + s as i32);
+                if rel > best.0 { best = (rel, bits) }
+            }
+        }
+        best
     }
     pub fn merge_viol(into: &mut BTreeMap<String, KeyBest>, from: BTreeMap<String, KeyBest>) {
         for (k, v) in from {
@@ -261,11 +283,11 @@ pub fn check_rate(st: &mut ASt, index: u64) {
                     || format!("rate {rate:e}: E[weight] = n+1-P with n={n}, P={cnt}/2^53 deviates from 1/rate = {} by {rel:e} relative (> 2^{EXPECTATION_TOL_LOG2})", inv.describe()),
                     || { let mut c = ctx(n); c["relative_deviation"] = json!(format!("{rel:e}")); c });
             }
-            // for the evidence only (rounded to f64 for display; the verdict above is exact)
-            let rel = a as f64 / 2f64.powi(53 + inv.s as i32);
-            if small {
-                if rel > st.max_rel_small { st.max_rel_small = rel; st.arg_small = bits }
-            } else if rel > st.max_rel_large { st.max_rel_large = rel; st.arg_large = bits }
+            // for the evidence: exact maximum per exponent
+            let tab = if small { &mut st.max_num_small } else { &mut st.max_num_large };
+            if tab.is_empty() { tab.resize(87, (0, 0)) }
+            let slot = &mut tab[inv.s as usize];
+            if a > slot.0 { *slot = (a, bits) }
         }
     }
 
